@@ -3314,14 +3314,19 @@ impl CanonicalizeContext {
 		let has_left_match = if let Some(op_prefix) = operator_versions.prefix {
 			if ptr_eq(top(parse_stack).op_pair.op, op_prefix) { 	// match at top of stack? (empty matching bars)
 				true
-			} else if parse_stack.len() > 2 {
-				// matching op is below top (operand between matching bars) -- pop, peek, push
-				let old_top = parse_stack.pop().unwrap();		
-				let top_op = top(parse_stack).op_pair.op;																	// can only access top, so we need to pop off top and push back later
-				parse_stack.push(old_top);
-				ptr_eq(top_op, op_prefix)
 			} else {
-				false
+				// matching op is below top (operand between matching bars) -- the operand can be several rows deep (e.g., '|x+yz|'),
+				//   so look down the stack until the open bar or some other open fence is found
+				let mut found = false;
+				for stack_info in parse_stack.iter().rev().skip(1) {
+					if ptr_eq(stack_info.op_pair.op, op_prefix) {
+						found = true;
+						break;
+					} else if stack_info.op_pair.op.is_left_fence() {
+						break;
+					}
+				}
+				found
 			}
 		} else {
 			false
